@@ -81,18 +81,23 @@ func check(c Case) (string, info) {
 		generated[i] = true
 		return ""
 	}
-	argCache := map[[2]int][]value.Value{}
+	// ReuseArgs: the host keeps the arguments of all tuples of a program in ONE table, row
+	// after row, and passes the rows (sub-slices whose capacity reaches over the following
+	// rows) to every evaluation with that tuple: an evaluation must not write to it
+	argTables := map[int][]value.Value{}
 	argsOf := func(i, j int, pc progs.Case) []value.Value {
 		if !c.ReuseArgs {
 			return progs.ImplArgs(pc, obs.RepListMap)
 		}
-		k := [2]int{i, j}
-		if a, ok := argCache[k]; ok {
-			return a
+		k := len(c.Progs[i].ArgNames)
+		tab, ok := argTables[i]
+		if !ok {
+			for _, tup := range c.Tuples[i] {
+				tab = append(tab, progs.ImplArgs(progs.Case{Prog: c.Progs[i], Args: tup}, obs.RepListMap)...)
+			}
+			argTables[i] = tab
 		}
-		a := progs.ImplArgs(pc, obs.RepListMap)
-		argCache[k] = a
-		return a
+		return tab[j*k : (j+1)*k]
 	}
 	type held struct {
 		f, t int
